@@ -187,7 +187,7 @@ func ZZ_C08_proposalValidation() {
 	roles := make([]int, 4)
 	roles[0] = zz.Choose("terms.role0", 4)             // me
 	roles[1] = []int{1, 3, 0, 2}[zz.Choose("terms.role1", zz.Param("role1_options", 3))] // a current member: remains, leaves, forgotten (or joins)
-	roles[2] = []int{1, 2}[zz.Choose("terms.role2", zz.Param("role2_options", 2))] // remains or joins
+	roles[2] = []int{1, 2, 3}[zz.Choose("terms.role2", zz.Param("role2_options", 2))] // remains, joins (wrongly), or leaves
 	roles[3] = []int{0, 2, 1}[zz.Choose("terms.role3", zz.Param("role3_options", 3))] // the outsider: absent, joins, or wrongly listed as remaining
 	for i := 0; i < 4; i++ {
 		switch roles[i] {
